@@ -1,5 +1,6 @@
 """C04 - every view of a simulated state agrees on which qubit is which."""
 import math
+import weakref
 from collections import Counter
 
 import numpy as np
@@ -8,6 +9,7 @@ from ..gen import circuits as GC
 from ..ref import gates as G
 from ..ref import linalg as L
 from ..ref import pauli as P
+from ..ref import statevec as S
 
 ID = "C04"
 LEVEL = "exploration"
@@ -18,8 +20,19 @@ RULE = (
     "general Pauli operators; widths 1-6 quick / 1-8 thorough; for every circuit: amplitudes, exact "
     "distribution, exact and measured expectation of Z-type operators (all single qubits + random subsets), "
     "samples and count strings in BOTH sampling regimes (n_samples <= 2^n and > 2^n) against one reference "
-    "simulation built from textbook matrices and bit arithmetic. Non-trivial = the reference probability "
-    "vector is not invariant under bit reversal; distinct = distinct canonical circuit strings"
+    "simulation built from textbook matrices and bit arithmetic. Further classes: symbolic (gates with free "
+    "symbols - also controlled / XX / YY / ZZ / doubly controlled gates on permuted, non-adjacent qubits, widths "
+    "2-4 quick / 2-6 thorough - simulated symbolically, bound afterwards in one or two steps, and the circuit "
+    "with numbers bound through the numeric path), history (ONE simulator object, optionally one operator "
+    "object, driven through a sequence of near-identical circuits: same gates on a wider / narrower register, "
+    "one parameter changed, one gate's qubits exchanged, qubits relabelled / mirrored, gate dropped / appended, "
+    "the same circuit again, each new circuit made right after the earlier one was dropped so that it often "
+    "takes over its id(); every view at every step), wide (registers of 9-17 qubits: sparse asymmetric states "
+    "given directly, or made by a short circuit on 9-10 (thorough 11) qubits whose two-qubit gates span up to "
+    "the whole register; Z-type and general operators that touch the qubits on both sides of the 8/16-bit "
+    "boundaries of the basis index; measurement records of width 9-100 built from tuples); in a quarter of all "
+    "circuits the simulator is also started from an explicit asymmetric initial state. Non-trivial = the reference probability vector (or the multiset of measured "
+    "tuples) is not invariant under bit reversal; distinct = distinct canonical circuit strings"
 )
 ASSUMPTIONS = [
     "reference: rv/ref/gates.py (textbook matrices) + rv/ref/linalg.py (embedding by bit arithmetic), qubit 0 = "
@@ -31,6 +44,12 @@ ASSUMPTIONS = [
     "Wavefunction.get_outcome_probs and bitstring_to_tuple are intermediate conventions: they are judged "
     "through their composition (sample_from_wavefunction), individually only for being bijective relabellings",
     "register width 0 (an empty circuit) is outside the workload",
+    "registers wider than 8 qubits: the reference applies gates and Pauli strings by index arithmetic on the state "
+    "vector (rv/ref/statevec.py) instead of dense 2^n x 2^n matrices",
+    "symbolic circuits: the library's exact expectation value of a wavefunction with unbound symbols raises a "
+    "TypeError in this environment and is not requested; symbolic wavefunctions are judged after Wavefunction.bind",
+    "controlled gates list their control qubits first (gate.controlled(k)(*controls, *targets)); "
+    "XX/YY/ZZ(theta) = exp(-i theta/2 P(x)P)",
 ]
 DECIDING = [
     "get_wavefunction", "get_measurement_outcome_distribution", "run_and_measure",
@@ -39,16 +58,26 @@ DECIDING = [
     "get_sparse_operator", "amplitudes", "exact-distribution", "exact-expectation",
     "exact-expectation-vs-own-distribution", "deterministic-samples", "marginals:few", "marginals:many",
     "measured-expectation:few", "measured-expectation:many", "count-strings", "support:few", "support:many",
+    "bound-amplitudes", "wide-shots",
 ]
 BRANCHES = ["sample_from_wavefunction:many-samples", "sample_from_wavefunction:few-samples"]
 BUDGET = {"quick": (4, 35, 120), "thorough": (16, 200, 100000)}
 CASE_TIMEOUT = {"quick": 20, "thorough": 60}
 
 P_MIN = 1e-12
+W_MAX = 12  # widest register whose circuits the reference simulates
+D_MAX = 2**17  # longest state vector the sampling / relabelling monitors look at
+
+
+def _apply(U, qubits, n, state):
+    """reference application of a gate: dense embedding up to 8 qubits, index arithmetic above"""
+    if n <= 8:
+        return L.apply(U, qubits, n, state)
+    return S.apply(U, qubits, n, state)
 
 
 def classes(tier):
-    return ["classical", "product", "entangled", "two_outcome", "operators"]
+    return ["classical", "product", "entangled", "two_outcome", "operators", "symbolic", "history", "wide"]
 
 
 # ----------------------------------------------------------------------------- reference from a circuit object
@@ -60,11 +89,11 @@ def _circuit_ref(circuit, initial_state=None):
     independent bit-arithmetic embedding.  None = outside the oracle's domain."""
     key = (id(circuit), None if initial_state is None else id(initial_state))
     hit = _REF_CACHE.get(key)
-    if hit is not None and hit[0] is circuit:
-        return hit[1]
+    if hit is not None and hit[0]() is circuit and hit[1] is initial_state:
+        return hit[2]
     try:
         n = circuit.n_qubits
-        if not 1 <= n <= 8 or circuit.free_symbols:
+        if not 1 <= n <= W_MAX or circuit.free_symbols:
             return None
         if initial_state is None:
             state = np.zeros(2**n, dtype=complex)
@@ -78,12 +107,17 @@ def _circuit_ref(circuit, initial_state=None):
             qubits = getattr(op, "qubit_indices", None)
             if gate is None or qubits is None:
                 return None
-            state = L.apply(GC.to_np(gate.matrix), tuple(int(q) for q in qubits), n, state)
+            state = _apply(GC.to_np(gate.matrix), tuple(int(q) for q in qubits), n, state)
     except Exception:
         return None
     if len(_REF_CACHE) > 32:
         _REF_CACHE.clear()
-    _REF_CACHE[key] = (circuit, state)
+    try:
+        # weak: the monitor must not keep a circuit alive (a later circuit may then take over its identity,
+        # which is exactly what a table keyed by id() in the library would stumble over)
+        _REF_CACHE[key] = (weakref.ref(circuit), initial_state, state)
+    except TypeError:
+        pass
     return state
 
 
@@ -91,8 +125,23 @@ def _probs(state):
     return np.abs(np.asarray(state, dtype=complex)) ** 2
 
 
+_REV = {}
+
+
+def _rev(n):
+    """index array r with r[i] = i with its n bits reversed"""
+    r = _REV.get(n)
+    if r is None:
+        idx = np.arange(2**n)
+        r = np.zeros(2**n, dtype=int)
+        for b in range(n):
+            r |= ((idx >> b) & 1) << (n - 1 - b)
+        _REV[n] = r
+    return r
+
+
 def _reversal_hint(got, ref, n):
-    rev = L.bit_reversal_perm(n)
+    rev = _rev(n)
     if np.allclose(np.asarray(got), np.asarray(ref)[rev], atol=1e-9) and not np.allclose(np.asarray(ref), np.asarray(ref)[rev], atol=1e-9):
         return " (equals the reference with the qubit order reversed)"
     return ""
@@ -224,7 +273,7 @@ def _post_sample(mon, call):
         mon.out_of_domain("sample_from_wavefunction")
         return
     a = _numeric_amplitudes(wf)
-    if a is None or len(a) < 2 or len(a) & (len(a) - 1):
+    if a is None or len(a) < 2 or len(a) & (len(a) - 1) or len(a) > D_MAX:
         mon.out_of_domain("sample_from_wavefunction")
         return
     n = len(a).bit_length() - 1
@@ -250,7 +299,7 @@ _OP_LAST = {}
 def _post_outcome_probs(mon, call):
     name = "Wavefunction.get_outcome_probs"
     a = call.pre
-    if a is None or call.exc is not None or len(a) < 2 or len(a) > 2**10:
+    if a is None or call.exc is not None or len(a) < 2 or len(a) > D_MAX:
         mon.out_of_domain(name)
         return
     n = len(a).bit_length() - 1
@@ -269,8 +318,7 @@ def _post_outcome_probs(mon, call):
         mon.violation("outcome-probs-values", "the probabilities are not a relabelling of |a|^2")
         return
     p = _probs(a)
-    rev = L.bit_reversal_perm(n)
-    if not np.allclose(p, p[rev], atol=1e-9):
+    if len(a) <= 2**10 and not np.allclose(p, p[_rev(n)], atol=1e-9):
         by_rev = all(abs(float(np.asarray(d[format(i, f"0{n}b")[::-1]]).flatten()[0]) - p[i]) < 1e-12 for i in range(len(a)))
         mon.note("outcome_probs:key=" + ("reversed-index-string" if by_rev else "other-convention"))
     mon.ok(name)
@@ -331,7 +379,7 @@ def _post_create_dist(mon, call):
     except Exception:
         mon.out_of_domain(name)
         return
-    if len(p) < 2 or len(p) & (len(p) - 1) or len(p) > 2**10 or not np.all(np.isfinite(p)) or np.any(p < 0) or abs(p.sum() - 1) > 1e-9:
+    if len(p) < 2 or len(p) & (len(p) - 1) or len(p) > 2**13 or not np.all(np.isfinite(p)) or np.any(p < 0) or abs(p.sum() - 1) > 1e-9:
         mon.out_of_domain(name)
         return
     n = len(p).bit_length() - 1
@@ -347,6 +395,8 @@ def _terms(op):
 
 
 def _pauli_expectation(psi, terms, n):
+    if n > 8:
+        return S.pauli_expectation(psi, terms, n)
     total = 0j
     for ops, c in terms:
         total += np.vdot(psi, P.string_matrix(ops, c, n) @ psi)
@@ -475,7 +525,7 @@ def install(mon, reach):
     reach.watch(ST.get_sparse_operator, "get_sparse_operator")
     reach.watch(MM.get_expectation_value_from_frequencies, "get_expectation_value_from_frequencies")
     reach.watch(MP.check_parity_of_vector, "check_parity_of_vector")
-    reach.watch(UT._lift_matrix, "_lift_matrix")
+    reach.watch(getattr(UT, "_lift_matrix", None), "_lift_matrix")
     reach.watch(Sim.get_wavefunction, "get_wavefunction")
     reach.watch(Sim.get_exact_expectation_values, "get_exact_expectation_values")
     reach.watch(Sim.get_measurement_outcome_distribution, "get_measurement_outcome_distribution")
@@ -633,14 +683,44 @@ def build_operator(terms):
     return out
 
 
+def _gate(C, name, param):
+    """library gate of a spec entry; 'c:NAME' / 'cc:NAME' = NAME with 1 / 2 control qubits listed first"""
+    if ":" in name:
+        ctl, base = name.split(":")
+        return _gate(C, base, param).controlled(len(ctl))
+    g = getattr(C, name)
+    return g if param is None else g(param)
+
+
 def build_circuit(spec, n):
     from orquestra.quantum import circuits as C
 
-    ops = []
+    return C.Circuit([_gate(C, name, param)(*qubits) for name, param, qubits in spec], n_qubits=n)
+
+
+def ref_matrix(name, param):
+    """textbook matrix of a spec entry (nothing of the library is consulted)"""
+    if ":" in name:
+        ctl, base = name.split(":")
+        return L.controlled(ref_matrix(base, param), len(ctl))
+    if name in ("XX", "YY", "ZZ"):  # exp(-i theta/2 P(x)P) = cos(theta/2) 1 - i sin(theta/2) P(x)P
+        pauli = G.fixed(name[0])
+        return math.cos(param / 2) * np.eye(4, dtype=complex) - 1j * math.sin(param / 2) * np.kron(pauli, pauli)
+    return G.matrix(name, param)
+
+
+def run_spec(spec, n, state=None):
+    """reference state of a spec on |0...0> (or on ``state``)"""
+    if state is None:
+        state = np.zeros(2**n, dtype=complex)
+        state[0] = 1.0
     for name, param, qubits in spec:
-        g = getattr(C, name)
-        ops.append(g(*qubits) if param is None else g(param)(*qubits))
-    return C.Circuit(ops, n_qubits=n)
+        state = _apply(ref_matrix(name, param), tuple(qubits), n, state)
+    return state
+
+
+def used_width(spec):
+    return max((q for _n, _p, qs in spec for q in qs), default=-1) + 1
 
 
 def spec_str(spec):
@@ -661,25 +741,35 @@ def _sample_regimes(ctx, n):
     return few, many
 
 
-def _views(ctx, spec, n, stats=False, classical=None, operators_general=False):
+def _nontrivial(p, n):
+    return not np.allclose(p, p[_rev(n)], atol=1e-6)
+
+
+def _views(ctx, spec, n, stats=False, classical=None, operators_general=False, *,
+           sim=None, circuit=None, psi=None, shared_op=None, describe=True):
+    """every view of one circuit against one reference state.  ``sim`` / ``shared_op``: objects that lived
+    through earlier circuits of the same case (histories); ``circuit`` / ``psi``: a circuit that was not
+    built from the spec alone (bound symbolic circuit) and its reference state"""
     from orquestra.quantum.operators import get_expectation_value
     from orquestra.quantum.runners import SymbolicSimulator
     from orquestra.quantum.wavefunction import sample_from_wavefunction
 
     rng = ctx.rng
     mon = ctx.mon
-    psi = G.run(spec, n)
+    if psi is None:
+        psi = run_spec(spec, n)
     p = _probs(psi)
-    rev = L.bit_reversal_perm(n)
-    nontrivial = not np.allclose(p, p[rev], atol=1e-6)
     terms = z_terms(rng, n)
     few, many = _sample_regimes(ctx, n)
     seed = rng.randrange(2**31)
-    ctx.describe(f"{ctx.cls} n={n} [{spec_str(spec)}] op={terms} few={few} many={many} seed={seed}", nontrivial)
+    if describe:
+        ctx.describe(f"{ctx.cls} n={n} [{spec_str(spec)}] op={terms} few={few} many={many} seed={seed}", _nontrivial(p, n))
     mon.note(f"width:{n}")
 
-    circuit = build_circuit(spec, n)
-    sim = SymbolicSimulator(seed=seed)
+    if circuit is None:
+        circuit = build_circuit(spec, n)
+    if sim is None:
+        sim = SymbolicSimulator(seed=seed)
 
     # 1 amplitudes
     wf = sim.get_wavefunction(circuit)
@@ -690,6 +780,23 @@ def _views(ctx, spec, n, stats=False, classical=None, operators_general=False):
         f"reference {np.round(psi, 6).tolist() if len(psi) <= 16 else '...'}" + (_reversal_hint(got, psi, n) if got is not None and len(got) == len(psi) else "")))
     if not ok:
         return
+    if rng.random() < 0.25:
+        # the other way into the simulator: an explicit initial state (asymmetric basis state or superposition)
+        init = np.zeros(2**n, dtype=complex)
+        b0 = asymmetric_bits(rng, n)
+        init[G.index_of(b0)] = 1.0
+        if rng.random() < 0.5:
+            b1 = asymmetric_bits(rng, n)
+            if b1 != b0:
+                init[G.index_of(b0)], init[G.index_of(b1)] = 0.6, 0.8j
+        psi_i = run_spec(spec, n, init)
+        got_i = _numeric_amplitudes(sim.get_wavefunction(circuit, init.copy()))
+        mon.note("initial-state-given")
+        ctx.check("amplitudes", got_i is not None and len(got_i) == len(psi_i) and L.close(got_i, psi_i, 1e-9),
+                  lambda: f"started from initial state with support {sorted(np.nonzero(init)[0].tolist())}: amplitudes "
+                          f"{np.round(got_i, 6).tolist() if got_i is not None and len(got_i) <= 16 else '...'} differ from the "
+                          f"reference {np.round(psi_i, 6).tolist() if len(psi_i) <= 16 else '...'}"
+                          + (_reversal_hint(got_i, psi_i, n) if got_i is not None and len(got_i) == len(psi_i) else ""))
 
     # 2 exact distribution
     dist = sim.get_measurement_outcome_distribution(circuit)
@@ -698,7 +805,7 @@ def _views(ctx, spec, n, stats=False, classical=None, operators_general=False):
     ctx.check("exact-distribution", bad is None, lambda: f"exact distribution: {bad}")
 
     # 3 exact expectation of Z-type operators
-    op = build_operator(terms)
+    op = build_operator(terms) if shared_op is None else shared_op
     # the library's own term order (public view) decides which measured value belongs to which term
     terms = [(tuple(q for q, _o in ops), c.real) for ops, c in P.terms_of(op)]
     e_ref = G.z_expectation(p, terms, n)
@@ -739,7 +846,11 @@ def _views(ctx, spec, n, stats=False, classical=None, operators_general=False):
         exp_counts = Counter("".join(str(b) for b in t) for t in shots)
         ctx.check("count-strings", dict(counts) == dict(exp_counts),
                   lambda: f"count strings {dict(counts)} vs tuples {dict(exp_counts)}")
-        if classical is not None:
+        if classical is None:
+            # judged by the monitor against the very tuples; a second operator on the same record
+            m.get_expectation_values(op)
+            m.get_expectation_values(build_operator([((rng.randrange(n),), 1.0)]))
+        else:
             ctx.check("deterministic-samples", all(t == classical for t in shots),
                       lambda: f"[{regime}-samples regime] expected every sample to be {classical}, got {sorted(set(shots))[:4]}")
             ev = m.get_expectation_values(op)
@@ -792,9 +903,492 @@ def _views(ctx, spec, n, stats=False, classical=None, operators_general=False):
                           lambda: f"[{regime}] measured <{c}*Z{list(qs)}> = {v!r} over {Ns} samples, exact {c * e!r} (tolerance {tol:.4g})")
 
 
+# ----------------------------------------------------------------------------- symbolic circuits
+TWO_QUBIT = ["CNOT", "c:RY", "c:RX", "c:PHASE", "c:RZ", "XX", "YY", "ZZ", "CPHASE", "SWAP", "CZ"]
+THREE_QUBIT = ["cc:X", "cc:RY", "c:SWAP", "c:XX", "cc:PHASE", "c:CNOT"]
+PARAMETRIC = {"RX", "RY", "RZ", "PHASE", "CPHASE", "XX", "YY", "ZZ"}
+
+
+def _is_parametric(name):
+    return name.split(":")[-1] in PARAMETRIC
+
+
+def spread_qubits(rng, k, n):
+    """k distinct qubits in a random ORDER; biased towards far apart / descending tuples (the permutation that
+    brings them next to each other is then neither trivial nor its own inverse)"""
+    qs = rng.sample(range(n), k)
+    if n > k and rng.random() < 0.5:
+        qs = rng.sample(range(n), k)
+        lo, hi = 0, n - 1
+        if rng.random() < 0.5:
+            qs[0], qs[-1] = (hi, lo) if rng.random() < 0.6 else (lo, hi)
+            mid = [q for q in range(n) if q not in (lo, hi)]
+            rng.shuffle(mid)
+            qs[1:-1] = mid[: k - 2]
+    return tuple(qs)
+
+
+def multi_qubit_spec(rng, n, k_gates=None, dense=True):
+    """distinct single-qubit preparations (dense: a rotation on every qubit; otherwise a mixture of rotations,
+    X and idle qubits - fewer non-zero amplitudes, which is what the library's symbolic arithmetic is paid
+    by), then 2- and 3-qubit gates (controlled, two-qubit rotations, doubly controlled) on qubit tuples in
+    arbitrary order"""
+    spec = []
+    order = list(range(n))
+    rng.shuffle(order)
+    rotated = set(order if dense else order[: max(1, min(2, n - 1))])
+    for q in order:
+        if q in rotated:
+            spec.append(("RY", _r(rng.uniform(0.3, 2.8)), (q,)))
+            if rng.random() < 0.3:
+                spec.append((rng.choice(["RZ", "RX", "PHASE"]), _r(rng.uniform(-3, 3)), (q,)))
+        elif rng.random() < 0.6:
+            spec.append(("X", None, (q,)))
+    for _ in range(k_gates if k_gates is not None else rng.randint(1, 3)):
+        if n >= 3 and rng.random() < 0.35:
+            name, k = rng.choice(THREE_QUBIT), 3
+        elif n >= 2:
+            name, k = rng.choice(TWO_QUBIT), 2
+        else:
+            name, k = rng.choice(["RX", "RY", "RZ"]), 1
+        spec.append((name, _r(rng.uniform(-3, 3)) or 0.5 if _is_parametric(name) else None, spread_qubits(rng, k, n)))
+        if rng.random() < 0.3:
+            spec.append(("RY", _r(rng.uniform(-2.5, 2.5)), (rng.randrange(n),)))
+    return spec
+
+
+def symbolise(rng, spec, max_symbolic=3):
+    """(symbolic spec, assignment {Symbol: float}, numeric spec): some parameters become a*s + b of one of two
+    symbols; the numeric spec carries the value the expression takes under the assignment"""
+    import sympy
+
+    names = rng.sample(["theta", "phi", "alpha", "x", "t0", "gamma"], 2)
+    symbols = [sympy.Symbol(nm) for nm in names]
+    values = {sym: _r(rng.uniform(-3, 3)) or 0.7 for sym in symbols}
+    idx = [i for i, (nm, p, _q) in enumerate(spec) if p is not None]
+    multi = [i for i in idx if len(spec[i][2]) > 1]
+    chosen = set()
+    if multi:
+        chosen.add(rng.choice(multi))  # the point of the class: a multi-qubit gate that takes the symbolic path
+    elif idx:
+        chosen.add(rng.choice(idx))
+    for i in rng.sample(idx, len(idx)):  # the library's cost grows steeply with the number of symbolic gates
+        if len(chosen) < max_symbolic and rng.random() < 0.3:
+            chosen.add(i)
+    sym_spec, num_spec = [], []
+    for i, (nm, p, qs) in enumerate(spec):
+        if i not in chosen:
+            sym_spec.append((nm, p, qs))
+            num_spec.append((nm, p, qs))
+            continue
+        sym = rng.choice(symbols)
+        a, b = rng.choice([(1, 0), (1, 0), (2, 0), (-1, 0), (1, 0.25), (sympy.Rational(1, 2), 0), (-2, 1.5)])
+        expr = a * sym + b if b else a * sym
+        sym_spec.append((nm, expr, qs))
+        num_spec.append((nm, float(a) * values[sym] + b, qs))
+    used = set()
+    for _nm, prm, _qs in sym_spec:
+        used |= set(getattr(prm, "free_symbols", ()))
+    return sym_spec, {k: v for k, v in values.items() if k in used}, num_spec
+
+
+def _symbolic_case(ctx):
+    from orquestra.quantum.operators import get_expectation_value
+    from orquestra.quantum.runners import SymbolicSimulator
+    from orquestra.quantum.wavefunction import sample_from_wavefunction
+
+    rng = ctx.rng
+    n = rng.choice([2, 3, 3, 3, 4, 4, 4, 4] if ctx.quick else [2, 3, 4, 4, 5, 5, 6])
+    sym_spec, assignment, num_spec = symbolise(rng, multi_qubit_spec(rng, n, k_gates=rng.randint(1, 2 if n >= 5 else 3),
+                                                                     dense=rng.random() < (0.25 if n <= 3 else 0.1)),
+                                               max_symbolic=(1 if n >= 5 else 2) if ctx.quick else 3)
+    psi = run_spec(num_spec, n)
+    p = _probs(psi)
+    seed = rng.randrange(2**31)
+    stepwise = len(assignment) > 1 and rng.random() < 0.3
+    few, many = _sample_regimes(ctx, n)
+    ctx.describe(f"symbolic n={n} [{spec_str(sym_spec)}] at {sorted((str(k), v) for k, v in assignment.items())} "
+                 f"stepwise={stepwise} few={few} many={many} seed={seed}", _nontrivial(p, n))
+    ctx.mon.note(f"width:{n}")
+    for nm, prm, qs in sym_spec:
+        if len(qs) > 1 and getattr(prm, "free_symbols", None):
+            ctx.mon.note("symbolic-multi-qubit-gate:" + ("adjacent-ascending" if list(qs) == list(range(qs[0], qs[0] + len(qs))) else "permuted"))
+
+    circuit = build_circuit(sym_spec, n)
+    sim = SymbolicSimulator(seed=seed)
+    wf = sim.get_wavefunction(circuit)
+    if stepwise:
+        first = rng.choice(sorted(assignment, key=str))
+        bound = wf.bind({first: assignment[first]}).bind({k: v for k, v in assignment.items() if k != first})
+    else:
+        bound = wf.bind(dict(assignment))
+    got = _numeric_amplitudes(bound)
+    ok = got is not None and len(got) == len(psi) and L.close(got, psi, 1e-9)
+    ctx.check("bound-amplitudes", ok, lambda: (
+        f"amplitudes of the symbolic wavefunction after binding "
+        f"{np.round(got, 6).tolist() if got is not None and len(got) <= 16 else '...'} differ from the reference "
+        f"{np.round(psi, 6).tolist() if len(psi) <= 16 else '...'}"
+        + (_reversal_hint(got, psi, n) if got is not None and len(got) == len(psi) else "")))
+    if ok:
+        # views of the bound symbolic wavefunction
+        op = build_operator(z_terms(rng, n))
+        terms = [(tuple(q for q, _o in ops), c.real) for ops, c in P.terms_of(op)]
+        e_ref = G.z_expectation(p, terms, n)
+        e_lib = complex(get_expectation_value(op, bound)).real
+        ctx.check("exact-expectation", abs(e_lib - e_ref) <= 1e-9 * max(1.0, sum(abs(c) for _, c in terms)),
+                  lambda: f"<{op}> of the bound symbolic wavefunction = {e_lib!r}, reference {e_ref!r}")
+        for regime, k in (("few", few), ("many", many)):
+            direct = sample_from_wavefunction(bound, k, rng.randrange(2**31))
+            bad_d = _judge_samples(direct, p, n, f"sample_from_wavefunction(bound symbolic wavefunction, {k}) [{regime}]")
+            ctx.check("support:" + regime, bad_d is None, lambda: bad_d[1])
+    # the same circuit with numbers bound first (same simulator object): through every view, or its state only
+    bound_circuit = circuit.bind(dict(assignment))
+    if rng.random() < 0.5:
+        return _views(ctx, num_spec, n, circuit=bound_circuit, psi=psi, sim=sim, describe=False)
+    got_n = _numeric_amplitudes(sim.get_wavefunction(bound_circuit))
+    ctx.check("amplitudes", got_n is not None and len(got_n) == len(psi) and L.close(got_n, psi, 1e-9),
+              lambda: f"amplitudes of the circuit with numbers bound differ from the reference"
+                      + (_reversal_hint(got_n, psi, n) if got_n is not None and len(got_n) == len(psi) else ""))
+
+
+# ----------------------------------------------------------------------------- histories of near-identical circuits
+SIBLINGS = ["wider", "wider", "narrower", "narrower", "param", "param", "flip", "flip", "relabel", "mirror", "drop",
+            "append", "same"]
+
+
+def sibling(rng, spec, n, kind, n_max):
+    """a circuit that differs from (spec, n) in ONE respect; None if the respect does not apply"""
+    spec = list(spec)
+    if kind == "wider":
+        return (spec, n + rng.choice([1, 1, 2])) if n + 1 <= n_max else None
+    if kind == "narrower":
+        w = max(used_width(spec), 1)
+        return (spec, rng.randint(w, n - 1)) if w < n else None
+    if kind == "same":
+        return spec, n
+    if kind == "param":
+        idx = [i for i, e in enumerate(spec) if e[1] is not None]
+        if not idx:
+            return None
+        i = rng.choice(idx)
+        nm, prm, qs = spec[i]
+        new = _r(rng.choice([prm + 1e-4, prm - 0.05, prm + 0.7, prm + 2 * math.pi, -prm, prm + math.pi]))
+        if new == prm:
+            return None
+        spec[i] = (nm, new, qs)
+        return spec, n
+    if kind == "flip":
+        idx = [i for i, e in enumerate(spec) if len(e[2]) > 1]
+        if not idx:
+            return None
+        i = rng.choice(idx)
+        nm, prm, qs = spec[i]
+        spec[i] = (nm, prm, tuple(reversed(qs)))
+        return spec, n
+    if kind in ("relabel", "mirror"):
+        if n < 2:
+            return None
+        perm = list(range(n))
+        if kind == "mirror":
+            perm.reverse()
+        else:
+            while perm == list(range(n)):
+                rng.shuffle(perm)
+        return [(nm, prm, tuple(perm[q] for q in qs)) for nm, prm, qs in spec], n
+    if kind == "drop":
+        if len(spec) < 2:
+            return None
+        del spec[rng.randrange(len(spec))]
+        return spec, n
+    if kind == "append":
+        q = rng.randrange(n)
+        spec.insert(rng.randint(0, len(spec)), rng.choice([("X", None, (q,)), ("RY", _r(rng.uniform(0.4, 2.6)), (q,))]))
+        return spec, n
+    raise ValueError(kind)
+
+
+def history_steps(rng, n_max, max_siblings=4):
+    w = rng.choice([1, 2, 2, 3, 3, 4])
+    maker = rng.choice(["classical", "two_outcome", "entangled", "entangled", "product", "multi"])
+    if maker == "classical":
+        base = classical_spec(rng, w)
+    elif maker == "two_outcome":
+        base = two_outcome_spec(rng, w)
+    elif maker == "product":
+        base = product_spec(rng, w)
+    elif maker == "multi":
+        base = multi_qubit_spec(rng, w, k_gates=1)
+    else:
+        base = entangled_spec(rng, w, rich=rng.random() < 0.4)
+    steps = [(list(base), w + rng.choice([0, 1, 1, 2]), "base")]
+    for _ in range(rng.randint(2, max_siblings)):
+        src = steps[0] if rng.random() < 0.5 else steps[-1]
+        for _try in range(8):
+            kind = rng.choice(SIBLINGS)
+            new = sibling(rng, src[0], src[1], kind, n_max)
+            if new is not None:
+                break
+        else:
+            kind, new = "same", (src[0], src[1])
+        steps.append((new[0], new[1], kind))
+    if rng.random() < 0.7:  # back to an earlier circuit after the look-alikes
+        back = rng.choice(steps[:-1])
+        steps.append((back[0], back[1], "again"))
+    return steps
+
+
+def _history_case(ctx):
+    from orquestra.quantum.runners import SymbolicSimulator
+
+    rng = ctx.rng
+    steps = history_steps(rng, 6 if ctx.quick else 8, 3 if ctx.quick else 5)
+    seed = rng.randrange(2**31)
+    share_op = rng.random() < 0.5
+    n_min = min(n for _s, n, _k in steps)
+    op_terms = z_terms(rng, n_min)
+    refs = [run_spec(spec, n) for spec, n, _k in steps]
+    ctx.describe("history seed=%d shared_op=%s :: " % (seed, op_terms if share_op else None)
+                 + " | ".join(f"{kind}: n={n} [{spec_str(spec)}]" for spec, n, kind in steps),
+                 any(_nontrivial(_probs(psi), n) for psi, (_s, n, _k) in zip(refs, steps)))
+    sim = SymbolicSimulator(seed=seed)
+    shared = build_operator(op_terms) if share_op else None
+    from orquestra.quantum import circuits as C
+
+    circuit, last_id = None, None
+    for (spec, n, kind), psi in zip(steps, refs):
+        ctx.mon.note("history:" + kind)
+        ops = [_gate(C, name, param)(*qubits) for name, param, qubits in spec]
+        # the earlier circuit is dropped just before the next one is made: the new object often takes over
+        # the identity (id) of the old one
+        circuit = None
+        circuit = C.Circuit(ops, n_qubits=n)
+        if id(circuit) == last_id:
+            ctx.mon.note("history:identity-of-earlier-circuit-reused")
+        last_id = id(circuit)
+        _views(ctx, spec, n, sim=sim, circuit=circuit, psi=psi, shared_op=shared, describe=False)
+
+
+# ----------------------------------------------------------------------------- wide registers
+BOUNDARY_BITS = (8, 16, 32, 64)
+
+
+def boundary_qubits(n):
+    """qubits next to an 8/16/32/64-bit boundary of the basis index or of the tuple, counted from either end"""
+    out = {0, n - 1}
+    for b in BOUNDARY_BITS:
+        out |= {b - 1, b, n - b, n - b - 1}
+    return sorted(q for q in out if 0 <= q < n)
+
+
+def wide_z_terms(rng, n):
+    edge = boundary_qubits(n)
+    singles = set(rng.sample(edge, min(len(edge), 4))) | set(rng.sample(range(n), 2))
+    coeffs = rng.sample([0.5, -0.75, 1.25, 2.0, -1.5, 0.3, -2.25, 1.0, 3.5, -0.4], len(singles))
+    terms = [((q,), c) for q, c in zip(sorted(singles), coeffs)]
+    for _ in range(rng.randint(1, 3)):
+        qs = tuple(sorted(set(rng.sample(edge, min(len(edge), rng.randint(1, 3))) + rng.sample(range(n), rng.randint(0, 2)))))
+        if len(qs) > 1 and not any(qs == t[0] for t in terms):
+            terms.append((qs, _r(rng.uniform(-2, 2)) or 0.5))
+    if rng.random() < 0.3:
+        terms.append(((), _r(rng.uniform(-1, 1)) or 0.25))
+    rng.shuffle(terms)
+    return terms
+
+
+def wide_bits(rng, n):
+    """asymmetric bit pattern whose boundary qubits are set more often than not"""
+    edge = set(boundary_qubits(n))
+    while True:
+        b = tuple(int(rng.random() < (0.6 if q in edge else 0.35)) for q in range(n))
+        if b != b[::-1]:
+            return b
+
+
+def wide_circuit_spec(rng, n):
+    """a short circuit on a wide register (every gate costs the library a 2^n x 2^n matrix): one or two X next
+    to the 8-bit boundaries / ends, rotations, up to two two-qubit gates of any span starting from a qubit that
+    is not idle"""
+    spec = []
+    for q in rng.sample(boundary_qubits(n), rng.randint(1, 3)):
+        spec.append(("X", None, (q,)))
+    for _ in range(rng.randint(1, 2)):
+        spec.append(("RY", _r(rng.uniform(0.6, 2.5)), (rng.randrange(n),)))
+    for _ in range(rng.choice([0, 1, 1, 2])):
+        # the span of a gate is a size of its own (the library permutes the qubits between its ends)
+        span = rng.randint(1, 4) if rng.random() < 0.4 else rng.randint(5, n - 1)
+        first = rng.choice([q for _nm, _p, qs in spec for q in qs])  # a qubit that is not idle
+        second = rng.choice([q for q in (first - span, first + span) if 0 <= q < n] or [(first + 1) % n])
+        name = rng.choice(["CNOT", "CNOT", "c:RY", "SWAP"])
+        spec.append((name, _r(rng.uniform(0.6, 2.5)) if name == "c:RY" else None, (first, second)))
+        if rng.random() < 0.3:
+            spec.append(("X", None, (rng.randrange(n),)))
+    return spec
+
+
+def _wide_shots(ctx):
+    from orquestra.quantum.measurements import Measurements
+
+    rng = ctx.rng
+    w = rng.choice([9, 12, 15, 16, 17, 24, 31, 32, 33, 48, 63, 64, 65, 70, 100])
+    outcomes = []
+    while len(outcomes) < rng.randint(1, 4):
+        b = wide_bits(rng, w)
+        if b not in outcomes:
+            outcomes.append(b)
+    shots = [b for b in outcomes for _ in range(rng.randint(1, 12))]
+    rng.shuffle(shots)
+    terms = wide_z_terms(rng, w)
+    ctx.describe(f"wide shots width={w} outcomes={[''.join(map(str, b)) for b in outcomes]} "
+                 f"counts={[shots.count(b) for b in outcomes]} op={terms}",
+                 Counter(shots) != Counter(b[::-1] for b in shots))
+    ctx.mon.note(f"wide-shots:width>{max([0] + [b for b in BOUNDARY_BITS if w > b])}")
+    m = Measurements(list(shots))
+    counts = m.get_counts()
+    exp_counts = Counter("".join(str(b) for b in t) for t in shots)
+    op = build_operator(terms)
+    terms = [(tuple(q for q, _o in ops), c.real) for ops, c in P.terms_of(op)]
+    ev = m.get_expectation_values(op)
+    exp_vals = _shot_average(terms, shots)
+    ctx.check("wide-shots", dict(counts) == dict(exp_counts), lambda: f"count strings {dict(counts)} vs tuples {dict(exp_counts)}")
+    ctx.check("wide-shots", len(ev.values) == len(exp_vals) and np.allclose(np.asarray(ev.values, dtype=complex), exp_vals, atol=1e-12),
+              lambda: f"measured {list(ev.values)} for terms {terms}; average over the tuples gives {exp_vals}")
+
+
+def _wide_case(ctx):
+    from orquestra.quantum.distributions import create_bitstring_distribution_from_probability_distribution
+    from orquestra.quantum.measurements import Measurements
+    from orquestra.quantum.operators import get_expectation_value
+    from orquestra.quantum.runners import SymbolicSimulator
+    from orquestra.quantum.wavefunction import Wavefunction, sample_from_wavefunction
+
+    rng = ctx.rng
+    kind = rng.choice(["state"] * 4 + ["circuit"] * 4 + ["shots"] * 2)
+    if kind == "shots":
+        return _wide_shots(ctx)
+    seed = rng.randrange(2**31)
+    sim = SymbolicSimulator(seed=seed)
+    classical = None
+    if kind == "circuit":
+        n = rng.choice([9, 9, 10] if ctx.quick else [9, 10, 10, 11])
+        spec = wide_circuit_spec(rng, n)
+        psi = run_spec(spec, n)
+        extra = rng.sample(["expectation", "distribution", "measure-few", "measure-many"], 2)
+        head = f"wide circuit n={n} [{spec_str(spec)}] extra={extra}"
+    else:
+        n = rng.choice([9, 9, 10, 10, 11, 12, 13, 16, 17] if ctx.quick else [9, 10, 11, 12, 13, 14, 15, 16, 17])
+        support = []
+        while len(support) < rng.choice([1, 2, 2, 3, 4]):
+            b = wide_bits(rng, n)
+            if b not in support:
+                support.append(b)
+        amps = [complex(_r(rng.uniform(0.3, 1.0)) * rng.choice([1, -1]), _r(rng.uniform(-1, 1)) if rng.random() < 0.5 else 0.0)
+                for _ in support]
+        norm = math.sqrt(sum(abs(a) ** 2 for a in amps))
+        psi = np.zeros(2**n, dtype=complex)
+        for b, a in zip(support, amps):
+            psi[G.index_of(b)] = a / norm
+        if len(support) == 1:
+            classical = support[0]
+        head = f"wide state n={n} support={[''.join(map(str, b)) for b in support]} amplitudes={amps}"
+    p = _probs(psi)
+    terms = wide_z_terms(rng, n)
+    dim = 2**n
+    few = rng.choice([1, rng.randint(2, 40), dim if n <= 12 else 7])
+    many = dim + rng.choice([1, 2, rng.randint(3, 60)])
+    do_few = n <= 13 or rng.random() < (0.3 if ctx.quick else 0.6)
+    do_many = n <= 12 or (not ctx.quick and n <= 16 and rng.random() < 0.3)
+    ctx.describe(f"{head} op={terms} few={few if do_few else None} many={many if do_many else None} seed={seed}", _nontrivial(p, n))
+    ctx.mon.note(f"width:{n}")
+
+    if kind == "circuit":
+        circuit = build_circuit(spec, n)
+        wf = sim.get_wavefunction(circuit)
+        got = _numeric_amplitudes(wf)
+        ok = got is not None and len(got) == len(psi) and L.close(got, psi, 1e-9)
+        ctx.check("amplitudes", ok, lambda: f"amplitudes differ from the reference, first at basis index "
+                  f"{int(np.argmax(np.abs(got - psi))) if got is not None and len(got) == len(psi) else None}"
+                  + (_reversal_hint(got, psi, n) if got is not None and len(got) == len(psi) else ""))
+        if not ok:
+            return
+    else:
+        wf = Wavefunction(psi.copy())
+
+    # exact expectation of Z-type operators, directly and against the library's own distribution
+    op = build_operator(terms)
+    terms = [(tuple(q for q, _o in ops), c.real) for ops, c in P.terms_of(op)]
+    scale = max(1.0, sum(abs(c) for _, c in terms))
+    e_ref = S.z_expectation(p, terms, n)
+    e_lib = complex(get_expectation_value(op, wf)).real
+    ctx.check("exact-expectation", abs(e_lib - e_ref) <= 1e-9 * scale,
+              lambda: f"exact <{op}> = {e_lib!r} on {n} qubits, reference sum_b p(b) eig(b) = {e_ref!r}")
+    if n <= 13:
+        dist = create_bitstring_distribution_from_probability_distribution(wf.get_probabilities())
+        dd = dist.distribution_dict
+        bad = _check_distribution_dict(dd, p, n)
+        ctx.check("exact-distribution", bad is None, lambda: f"exact distribution: {bad}")
+        if bad is None:
+            e_own = sum(float(v) * sum(c * G.z_parity(qs, key) for qs, c in terms) for key, v in dd.items() if v)
+            ctx.check("exact-expectation-vs-own-distribution", abs(e_lib - e_own) <= 1e-9 * scale,
+                      lambda: f"exact <{op}> = {e_lib!r} but the library's own exact distribution averages to {e_own!r}")
+    gen_terms = []
+    for _ in range(rng.randint(1, 2)):
+        qs = sorted(set(rng.sample(boundary_qubits(n), 2) + rng.sample(range(n), rng.randint(0, 2))))
+        gen_terms.append(({q: rng.choice("XYZ") for q in qs}, _r(rng.uniform(-2, 2)) or 1.0))
+    gop = build_operator(gen_terms)
+    e_gen = complex(get_expectation_value(gop, wf)).real
+    r_gen = S.pauli_expectation(psi, [(sorted(d.items()), complex(c)) for d, c in gen_terms], n).real
+    ctx.check("exact-expectation-general", abs(e_gen - r_gen) <= 1e-9 * max(1.0, sum(abs(c) for _, c in gen_terms)),
+              lambda: f"exact <{gop}> = {e_gen!r} on {n} qubits, reference {r_gen!r}")
+
+    # two more requests to the simulator itself (each one simulates the circuit again)
+    if kind == "circuit":
+        if "expectation" in extra:
+            e_sim = sim.get_exact_expectation_values(circuit, op)
+            ctx.check("exact-expectation", abs(e_sim - e_ref) <= 1e-9 * scale,
+                      lambda: f"simulator: exact <{op}> = {e_sim!r} on {n} qubits, reference {e_ref!r}")
+        if "distribution" in extra:
+            bad_s = _check_distribution_dict(sim.get_measurement_outcome_distribution(circuit).distribution_dict, p, n)
+            ctx.check("exact-distribution", bad_s is None, lambda: f"simulator: exact distribution: {bad_s}")
+        for regime, k in (("few", few), ("many", many)):
+            if "measure-" + regime not in extra:
+                continue
+            m = sim.run_and_measure(circuit, k)
+            bad_m = _judge_samples(m.bitstrings, p, n, f"run_and_measure(.., {k}) [{regime}]")
+            ctx.check("support:" + regime, bad_m is None and len(m.bitstrings) == k,
+                      lambda: bad_m[1] if bad_m else f"{len(m.bitstrings)} samples for {k}")
+
+    # sampling from the wavefunction, both regimes; counts and measured expectation of the record
+    for regime, k, do in (("few", few, do_few), ("many", many, do_many)):
+        if not do:
+            continue
+        shots = [tuple(t) for t in sample_from_wavefunction(wf, k, rng.randrange(2**31))]
+        bad_d = _judge_samples(shots, p, n, f"sample_from_wavefunction(.., {k}) [{regime}]")
+        ctx.check("support:" + regime, bad_d is None and len(shots) == k, lambda: bad_d[1] if bad_d else f"{len(shots)} samples for {k}")
+        if bad_d is not None:
+            continue
+        m = Measurements(list(shots))
+        counts = m.get_counts()
+        exp_counts = Counter("".join(str(b) for b in t) for t in shots)
+        ctx.check("count-strings", dict(counts) == dict(exp_counts), lambda: f"count strings {dict(counts)} vs tuples {dict(exp_counts)}")
+        ev = m.get_expectation_values(op)
+        if classical is not None:
+            ctx.check("deterministic-samples", all(t == classical for t in shots),
+                      lambda: f"[{regime}-samples regime, {n} qubits] expected every sample to be {classical}, got {sorted(set(shots))[:3]}")
+            exp_vals = [c * G.z_parity(qs, classical) for qs, c in terms]
+            ctx.check("measured-expectation:" + regime, np.allclose(np.asarray(ev.values, dtype=complex), exp_vals, atol=1e-12),
+                      lambda: f"[{regime}] measured {list(ev.values)} expected {exp_vals}")
+        # (a record that is not deterministic is judged by the monitor of get_expectation_values against its tuples)
+
+
 def run_case(ctx):
     rng = ctx.rng
     cls = ctx.cls
+    if cls == "symbolic":
+        return _symbolic_case(ctx)
+    if cls == "history":
+        return _history_case(ctx)
+    if cls == "wide":
+        return _wide_case(ctx)
     n = rand_width(ctx)
     if cls == "classical":
         spec = classical_spec(rng, n)
